@@ -367,6 +367,14 @@ func extrasMode(maxLen int, w *json.Encoder) {
 	})
 }
 
+// cycleLayouts: the cycle alone; a variable outside the cycle that points into it and stands first (a search that shares its
+// visited marks between starting points misses the cycle); a cycle that only an append closes, outsider first
+var cycleLayouts = [][]string{
+	{"@{p} = @{q}/1", "@{q} = @{p}/2"},
+	{"@{o} = @{p}/0", "@{p} = @{q}/1", "@{q} = @{p}/2"},
+	{"@{o} = @{q}/0", "@{p} = /x", "@{q} = @{p}/2", "@{p} += @{q}/3"},
+}
+
 func main() {
 	maxLen := flag.Int("len", 4, "max number of preamble lines")
 	shard := flag.Int("shard", 0, "")
@@ -374,6 +382,7 @@ func main() {
 	dump := flag.Bool("dump", false, "")
 	tun := flag.Int("tunables", 0, "history depth of the built-in-table mode (0 = off)")
 	probe := flag.Bool("probe-cycle", false, "resolve a two-variable cycle with a small stack limit and say what happened")
+	layout := flag.Int("layout", 0, "which cycle layout the probe resolves")
 	cycles := flag.Bool("cycles", false, "extend the alphabet by a two-variable cycle (only when the probe says Resolve survives it)")
 	extras := flag.Bool("extras", false, "dump what the real code makes of every sequence over the extras alphabet")
 	flag.Parse()
@@ -392,7 +401,7 @@ func main() {
 		// runs in its own process with a small stack limit and the parent reads the exit status
 		debug.SetMaxStack(2 << 20)
 		f := aa.NewAppArmorProfile()
-		_, perr := f.Parse("@{p} = @{q}/1\n@{q} = @{p}/2\n@{exec_path} = /bin/e\nprofile p @{exec_path} {\n}\n")
+		_, perr := f.Parse(strings.Join(cycleLayouts[*layout], "\n") + "\n@{exec_path} = /bin/e\nprofile p @{exec_path} {\n}\n")
 		if perr != nil {
 			fmt.Fprintln(realOut, "parse-error: "+perr.Error())
 			return
@@ -405,7 +414,7 @@ func main() {
 		return
 	}
 	if *cycles {
-		alphabet = append(alphabet, "@{p} = @{q}/1", "@{q} = @{p}/2")
+		alphabet = append(alphabet, "@{p} = @{q}/1", "@{q} = @{p}/2", "@{o} = @{p}/0")
 	}
 	if *tun > 0 {
 		tunablesMode(*tun, w)
